@@ -105,6 +105,24 @@ fn check_builder_to_ref(check: &Check, spec: &ArchiveSpec, origin: &str) -> Case
             if be.fsize as usize != want.len() {
                 vfail!("block-file-size-field", "block entry size {} != {}", be.fsize, want.len());
             }
+            // the hash entry carries the language the file was added under and platform 0 (published layout:
+            // name A, name B, locale u16, platform u16, block index)
+            if let Some(he) = ar.hash.iter().find(|h| h.block as usize == bi && h.block != refmpq::HASH_EMPTY && h.block != refmpq::HASH_DELETED) {
+                if f.locale != 0 {
+                    check.bump("A:files-with-a-language-id", 1);
+                }
+                if he.locale != f.locale || he.platform != 0 {
+                    vfail!(
+                        "hash-entry-locale-platform-fields",
+                        "{:?} was added with language id {:#06x}; the reference reads locale {:#06x}, platform {:#06x} from its hash entry — {}",
+                        f.name,
+                        f.locale,
+                        he.locale,
+                        he.platform,
+                        spec.summary()
+                    );
+                }
+            }
             match ar.extract(f.name.as_bytes()) {
                 Ok(got) if got == want => Ok(()),
                 other => {
@@ -365,6 +383,7 @@ fn grid_a() -> Vec<ArchiveSpec> {
                             seed: i as u32 * 7,
                             method,
                             enc,
+                            locale: if i % 3 == 1 { 0x409 } else { 0 },
                         })
                         .collect();
                     v.push(ArchiveSpec { version, shift, crcs: v.len() % 2 == 1, attrs: Attrs::None, listfile: true, compress_tables: false, table_method: M_ZLIB, files });
